@@ -182,24 +182,55 @@ def _tables_and_domains(res, index):
                 return bool(ok_)
             return None
 
-        def _raised_at(pname, value):
-            """exception name raised for pname = value by the guards that precede the construction, or None, or '?'"""
-            for g in guard_ifs:
-                t = _truth(g.test, {pname: value})
-                if t is None:
-                    continue
-                if t:
-                    rs = [x for x in ast.walk(ast.Module(body=g.body, type_ignores=[])) if isinstance(x, ast.Raise)]
-                    exc = rs[0].exc
-                    nm = exc.func.id if isinstance(exc, ast.Call) and isinstance(exc.func, ast.Name) else (exc.id if isinstance(exc, ast.Name) else "?")
-                    return nm, g.lineno
-            return None, None
+        def _outcomes(pname, value):
+            """reachable ends of get_shape with pname = value and the other parameters free: the body is walked as a decision
+            tree over its tests (a test that does not fold for this binding takes both branches).
+            -> set of ('raise', exception name, built before?) / ('return', None, built?)"""
+            out = set()
+
+            def has_build(node):
+                return any(isinstance(x, ast.Call) and ("make_vertices" in ast.unparse(x.func) or ast.unparse(x.func).endswith("get_shape")) for x in ast.walk(node))
+
+            def walk(stmts, built):
+                """-> True if control can fall off the end of this block"""
+                for i_, s_ in enumerate(stmts):
+                    if isinstance(s_, ast.Raise):
+                        exc = s_.exc
+                        nm = exc.func.id if isinstance(exc, ast.Call) and isinstance(exc.func, ast.Name) else (exc.id if isinstance(exc, ast.Name) else "?")
+                        out.add(("raise", nm, built))
+                        return False
+                    if isinstance(s_, ast.Return):
+                        out.add(("return", None, built or (s_.value is not None and has_build(s_.value))))
+                        return False
+                    if isinstance(s_, ast.If):
+                        t = _truth(s_.test, {pname: value})
+                        falls = []
+                        if t is not False:
+                            falls.append(walk(s_.body, built))
+                        if t is not True:
+                            falls.append(walk(s_.orelse, built))
+                        if not any(falls):
+                            return False
+                        continue
+                    if isinstance(s_, (ast.For, ast.While, ast.With, ast.Try)):
+                        return True          # not a shape the guards of get_shape take: stop judging (handled by the caller)
+                    if has_build(s_):
+                        built = True
+                return True
+            fell = walk([x for x in gs.node.body if not (isinstance(x, ast.Expr) and isinstance(x.value, ast.Constant))], False)
+            if fell:
+                out.add(("return", None, False))
+            return out
 
         params = [p for p in gs.params[1:]]
         guards = {}
         for p in params:
             k = f"{c.name}.get_shape:{p}"
-            decided = [g for g in guard_ifs if _truth(g.test, {p: 0.0}) is not None]
+            if p not in documented or None in documented[p]:
+                probe_lo, probe_mid = -1e9, 0.0
+            else:
+                probe_lo, probe_mid = documented[p][0] - 1e6, (documented[p][0] + documented[p][1]) / 2
+            decided = _outcomes(p, probe_lo) != _outcomes(p, probe_mid)
             if not decided:
                 res.bad("DOM-1", k + ":noguard", where, f"{c.name}.get_shape does not check the domain of `{p}` before constructing")
                 continue
@@ -212,14 +243,16 @@ def _tables_and_domains(res, index):
             probes = [("below", dlo - eps, True), ("lower bound", dlo, False), ("middle", (dlo + dhi) / 2, False), ("upper bound", dhi, False), ("above", dhi + eps, True)]
             problems = []
             for what_, val_, want_raise in probes:
-                exc_, line_ = _raised_at(p, val_)
-                if want_raise and exc_ is None:
+                outs_ = _outcomes(p, val_)
+                rets_ = [o for o in outs_ if o[0] == "return"]
+                raises_ = [o for o in outs_ if o[0] == "raise"]
+                if want_raise and rets_:
                     problems.append(f"{p} = {val_:.9g} ({what_} the documented domain [{dlo:.6g}, {dhi:.6g}]) is accepted")
-                elif want_raise and exc_ != "ValueError":
-                    problems.append(f"{p} outside its domain raises {exc_}, not ValueError")
-                elif not want_raise and exc_ is not None:
+                elif want_raise and any(o[1] != "ValueError" for o in raises_):
+                    problems.append(f"{p} outside its domain raises {sorted({o[1] for o in raises_ if o[1] != 'ValueError'})[0]}, not ValueError")
+                elif not want_raise and not rets_:
                     problems.append(f"{p} = {val_:.9g} ({what_} of the documented domain [{dlo:.6g}, {dhi:.6g}]) is refused")
-                if line_ is not None and line_ > build_line:
+                if want_raise and any(o[2] for o in raises_):
                     problems.append("the domain is checked after the construction")
             if problems:
                 res.bad("DOM-1", k, where, f"{c.name}.get_shape: " + "; ".join(sorted(set(problems))[:3]))
